@@ -21,18 +21,18 @@ pub fn check() -> Check {
     Check {
         property: "C18",
         level: "exploration",
-        rule: "multi-party scenarios: one sender encrypts (SEIPDv1 with PKESK v3 / SKESK v4, SEIPDv2 with PKESK v6 / SKESK v6) to 1..4 key recipients over all pool encryption algorithms (X25519, X448, ECDH Curve25519/P-256/P-384/P-521, RSA; locked and unlocked; addressed or anonymous) and 0..3 passwords over S2K kinds; 1..3 outsiders hold unrelated keys/passwords; a decoy stub rewrites the recipient field of one PKESK to name a key that cannot decrypt it. Evaluated: each recipient key alone, each password alone, recipient plus outsiders' keys in both orders, locked keys with several candidate passwords, (SKESK v6 only) the right password among unrelated ones, outsiders only, wrong password, wrong raw session key, and decrypt_the_ring(abort_early = false) with secrets that yield different session keys. Oracle: recipients get exactly the plaintext; non-recipients get Err by the end of the read and not one plaintext byte; conflicting session keys are reported as a conflict. Non-trivial: at least two ESK packets or an outsider involved; distinct = (scenario, party set) hash.",
-        families: vec![Family { name: "parties", gen: gen_parties, run: run_parties }],
+        rule: "multi-party scenarios: one sender encrypts (SEIPDv1 with PKESK v3 / SKESK v4, SEIPDv2 with PKESK v6 / SKESK v6) to 1..4 key recipients over all pool encryption algorithms (X25519, X448, ECDH Curve25519/P-256/P-384/P-521, RSA; locked and unlocked; addressed or anonymous) and 0..3 passwords over S2K kinds; 1..3 outsiders hold unrelated keys/passwords; a decoy stub rewrites the recipient field of one PKESK to name a key that cannot decrypt it. Evaluated: each recipient key alone, each password alone, recipient plus outsiders' keys in both orders, locked keys with several candidate passwords, (SKESK v6 only) the right password among unrelated ones, outsiders only, wrong password, wrong raw session key, and decrypt_the_ring(abort_early = false) with secrets that yield different session keys. Oracle: recipients get exactly the plaintext; non-recipients get Err by the end of the read and not one plaintext byte; conflicting session keys are reported as a conflict. Family foreign_skesk: the sender is another implementation (stub): the v4 SKESK of a SEIPDv1 message is re-made with its own salted/iterated S2K and AES-CFB so that the cipher wrapping the session key (AES-128/192/256) differs from the cipher of the container (any of the 11), as GnuPG's --s2k-cipher-algo allows; the password holder must read the plaintext, a wrong password must not. Non-trivial: at least two ESK packets or an outsider involved; distinct = (scenario, party set) hash.",
+        families: vec![Family { name: "parties", gen: gen_parties, run: run_parties }, Family { name: "foreign_skesk", gen: gen_foreign, run: run_foreign }],
         assumptions: vec![
             "SKESK v4 with decoy passwords is excluded by the property itself (its plausibility check false-accepts a few percent of wrong passwords by design)",
             "20-byte MDC / AEAD tags unforgeable; a wrong session key that passes the 16-bit SEIPDv1 quick check still fails at the MDC",
         ],
         real: vec!["MessageBuilder::encrypt_to_key(_anonymous)/encrypt_with_password", "Message::decrypt / decrypt_with_keys / decrypt_with_password / decrypt_with_session_key / decrypt_the_ring (TheRing::find_session_key)", "PKESK/SKESK packets, per-algorithm session key wrapping"],
-        stubs: vec!["decoy stub (rewrites PKESK recipient fields)", "outsider parties", "consumer driver"],
+        stubs: vec!["foreign sender (SKESK v4 built from the sha2 / aes / cfb-mode crates)", "decoy stub (rewrites PKESK recipient fields)", "outsider parties", "consumer driver"],
     }
 }
 
-const ENC_KEYS: [&str; 10] = ["ed25519-v4", "ed25519-v6", "edlegacy-v4", "ed448-v6", "p256-v4", "k256-v4", "ed25519-v4-locked", "ed25519-v6-locked", "p384-v6", "p521-v4"];
+const ENC_KEYS: [&str; 12] = ["ed25519-v4", "ed25519-v6", "edlegacy-v4", "ed448-v6", "p256-v4", "k256-v4", "ed25519-v4-locked", "ed25519-v6-locked", "p384-v6", "p521-v4", "sublocked-v4", "primlocked-v6"];
 
 fn gen_parties(ctx: &GenCtx) -> Vec<Value> {
     let n = ctx.n(9000, 300_000);
@@ -234,6 +234,12 @@ fn run_parties(plan: &Value, rec: &mut Rec) {
         let kk = *k;
         let out = open(&stream, || (vec![kk], vec!["not-the-password".to_string(), kk.password.to_string()], vec![], vec![]), true, max);
         scenario(&format!("key-alone:{}", k.name), n_esk >= 2, true, "", out, rec);
+        // the addressed subkey is not protected: no key password is needed at all, whatever the state
+        // of the primary key
+        if !kk.secret.secret_subkeys[0].key.secret_params().is_encrypted() {
+            let out = open(&stream, || (vec![kk], vec![], vec![], vec![]), true, max);
+            scenario(&format!("key-alone-no-key-password:{}", k.name), true, true, "", out, rec);
+        }
     }
     // b. each password alone
     let multi_v4 = !v2 && passwords.len() >= 2;
@@ -360,6 +366,120 @@ fn run_parties(plan: &Value, rec: &mut Rec) {
                     rec.violation("conflict-not-reported", "conflicting-session-keys", format!("expected the 'inconsistent session keys' error, got: {e} ({desc})"), vplan);
                 }
             }
+        }
+    }
+}
+
+// ------------------------------------------------------------------ SKESK v4 made by another implementation
+
+fn gen_foreign(ctx: &GenCtx) -> Vec<Value> {
+    if !ctx.first_round() {
+        return vec![];
+    }
+    let mut plans = Vec::new();
+    let mut i = 0u64;
+    for kek in ["aes128", "aes192", "aes256"] {
+        for sym in workload::SYMS {
+            for s2k in ["salted", "iterated"] {
+                let mut p = Planner::new(ctx.seed, "c18.foreign", i);
+                i += 1;
+                plans.push(json!({"kek": kek, "sym": sym, "s2k": s2k, "len": p.range(0, 300), "key": p.u64(), "compression": *p.pick(&["none", "zip"])}));
+            }
+        }
+    }
+    plans
+}
+
+/// RFC 9580 3.7.1.2 / 3.7.1.3 with SHA-256 for keys of at most 32 octets
+fn foreign_s2k(iterated: bool, salt: &[u8; 8], coded: u8, pw: &[u8], n: usize) -> Vec<u8> {
+    use sha2::Digest;
+    let unit = [&salt[..], pw].concat();
+    let mut h = sha2::Sha256::new();
+    if iterated {
+        let count = (16usize + (coded as usize & 15)) << ((coded as usize >> 4) + 6);
+        let total = count.max(unit.len());
+        let mut fed = 0;
+        while fed + unit.len() <= total {
+            h.update(&unit);
+            fed += unit.len();
+        }
+        h.update(&unit[..total - fed]);
+    } else {
+        h.update(&unit);
+    }
+    h.finalize()[..n].to_vec()
+}
+
+fn foreign_cfb(kek: &[u8], data: &mut [u8]) {
+    use cfb_mode::cipher::{AsyncStreamCipher, KeyIvInit};
+    let iv = [0u8; 16];
+    match kek.len() {
+        16 => cfb_mode::Encryptor::<aes::Aes128>::new_from_slices(kek, &iv).unwrap().encrypt(data),
+        24 => cfb_mode::Encryptor::<aes::Aes192>::new_from_slices(kek, &iv).unwrap().encrypt(data),
+        _ => cfb_mode::Encryptor::<aes::Aes256>::new_from_slices(kek, &iv).unwrap().encrypt(data),
+    }
+}
+
+fn run_foreign(plan: &Value, rec: &mut Rec) {
+    const PW: &str = "the recipient's password";
+    let sym = jstr(plan, "sym");
+    let cfg = json!({"source":"bytes","file_name":"","data_mode":"binary","partial":512,"compression": jstr(plan, "compression"),
+        "signers": [], "enc": {"k":"v1","sym": sym}, "recipients": [], "passwords": [{"pw": PW, "s2k": {"k":"salted","hash":"sha256"}}], "armor": false, "rng_key": ju64(plan, "key")});
+    let payload = payload_from_json(&json!({"gen":"random","len": plan["len"], "key": plan["key"]}));
+    let (built, info) = workload::build_reference(&cfg, &payload, ju64(plan, "key"), false);
+    let (Ok(stream), Some(session_key)) = (built, info.session_key.clone()) else {
+        rec.count("skip:build");
+        return;
+    };
+    let Ok(pk) = deframe(&stream) else { return };
+    if pk.len() != 2 || pk[0].tag != 3 {
+        rec.count("skip:unexpected-shape");
+        return;
+    }
+    let (kek_id, kek_len) = match jstr(plan, "kek") {
+        "aes128" => (7u8, 16usize),
+        "aes192" => (8, 24),
+        _ => (9, 32),
+    };
+    let iterated = jstr(plan, "s2k") == "iterated";
+    let mut p = Planner::new(ju64(plan, "key"), "foreign-salt", 0);
+    let salt: [u8; 8] = p.bytes(8).try_into().unwrap();
+    let coded = p.below(40) as u8;
+    let kek = foreign_s2k(iterated, &salt, coded, PW.as_bytes(), kek_len);
+    let sym_id: u8 = workload::sym(sym).into();
+    let mut wrapped = vec![sym_id];
+    wrapped.extend_from_slice(session_key.as_ref());
+    foreign_cfb(&kek, &mut wrapped);
+    let mut body = vec![4u8, kek_id, if iterated { 3 } else { 1 }, 8 /* SHA-256 */];
+    body.extend_from_slice(&salt);
+    if iterated {
+        body.push(coded);
+    }
+    body.extend_from_slice(&wrapped);
+    let mut out = frame(3, &body, &LenForm::NewMinimal).unwrap();
+    out.extend_from_slice(&stream[pk[1].start..]);
+    let out = Arc::new(out);
+    let max = payload.len() + 1024;
+    let desc = format!("SKESK v4 from a foreign sender: {} wraps a {} session key, {} S2K", jstr(plan, "kek"), sym, jstr(plan, "s2k"));
+    let mut h = Fnv::default();
+    h.str(&plan.to_string());
+    rec.sample(json!({"kek": plan["kek"], "sym": sym, "s2k": plan["s2k"], "payload_len": payload.len()}));
+    rec.count("fault:F-byz:foreign-skesk-v4");
+    if kek_len != workload::sym(sym).key_size() {
+        rec.count("probe:wrapping-and-session-key-sizes-differ");
+    }
+    for (scenario, pw, expect_plain) in [("foreign-skesk:right-password", PW, true), ("foreign-skesk:wrong-password", "somebody else's password", false)] {
+        rec.eval(h.0 ^ expect_plain as u64, true);
+        let mut vplan = plan.clone();
+        vplan["scenario"] = json!(scenario);
+        match open(&out, || (vec![], vec![], vec![pw.to_string()], vec![]), true, max) {
+            Err(pn) => rec.violation("panic", &norm_loc(&pn.loc), format!("{scenario}: {} ({desc})", pn.msg), vplan),
+            Ok(Outcome::Plain(d)) if expect_plain && d == payload => {}
+            Ok(Outcome::Plain(d)) if expect_plain => rec.violation("recipient-got-wrong-data", "foreign-skesk", format!("{scenario}: {} bytes differ from the payload ({desc})", d.len()), vplan),
+            Ok(Outcome::Plain(d)) => rec.violation("non-recipient-got-plaintext", "foreign-skesk", format!("{scenario}: read {} bytes to a clean end ({desc})", d.len()), vplan),
+            Ok(Outcome::Err(e, _)) if expect_plain => rec.violation("recipient-cannot-decrypt", "foreign-skesk", format!("{scenario}: {e} ({desc})"), vplan),
+            Ok(Outcome::Err(_, n)) if n > 0 => rec.violation("non-recipient-got-plaintext", "foreign-skesk", format!("{scenario}: {n} plaintext bytes released before the error ({desc})"), vplan),
+            Ok(Outcome::Err(..)) => {}
         }
     }
 }
